@@ -33,13 +33,14 @@ Servable(e) == e.idx >= 0 /\ LimbLess(LimbOf(e.idx), T.high)
 JudgeP(e) ==
   IF ~Servable(e) THEN (IF e.res = "raise" THEN "ok" ELSE "P:rejects-unservable-index")
   ELSE IF e.res = "raise" THEN "P:servable-index-raised"
+  ELSE IF e.res = "hang" THEN "P:servable-index-not-served"
   ELSE IF ~(NonNeg(e.val) /\ LimbLess(e.val, T.high)) THEN "P:in-range"
   ELSE IF \E p \in vals : p[1] = e.idx /\ p[2] # e.val THEN "P:history-independent"
   ELSE IF \E p \in vals : p[1] # e.idx /\ p[2] = e.val THEN "P:distinct"
   ELSE "ok"
 \* first clause on which the code leaves the design module SubSeed.tla, or ""
 JudgeM(e) ==
-  IF ~Servable(e) \/ e.res = "raise" THEN ""
+  IF ~Servable(e) \/ e.res # "val" THEN ""
   ELSE LET r == CallResult(Stream, cache, e.idx, e.uc)
            p == PosOf(Stream, 0, {}, e.idx + 1)
        IN IF p = Fail \/ r[1] = Fail THEN "X:stream-too-short"
